@@ -183,6 +183,7 @@ def _sfs_bnl_core(data, sorted_idx, offsets, n_total_groups, result_mask):
             # 2D: sort by col0, group-aware sweep
             order = np.argsort(local[:n, 0], kind="mergesort")
             best_c1 = numba.float64(1e308)
+            first_run = True
             i_start = numba.int64(0)
             while i_start < n:
                 c0_val = local[order[i_start], 0]
@@ -193,7 +194,8 @@ def _sfs_bnl_core(data, sorted_idx, offsets, n_total_groups, result_mask):
                     if v < g_min_c1:
                         g_min_c1 = v
                     i_end += 1
-                if g_min_c1 < best_c1:
+                if first_run or g_min_c1 < best_c1:
+                    first_run = False
                     for k in range(i_start, i_end):
                         if local[order[k], 1] == g_min_c1:
                             result_mask[group_idx[order[k]]] = True
